@@ -7,6 +7,7 @@
 //
 //	open mem|leveldb|kvfile|sqlite          -> ok            (exactly once per case)
 //	open buffer <maxBufferBytes>            -> ok            (buffer.New(mem, mem, n))
+//	open buffer <maxBufferBytes> <engine>   -> ok            (buffer.New(mem, that engine on a file, n))
 //	get K                                   -> v V | notfound | err
 //	set K V                                 -> ok | err
 //	del K                                   -> ok | err
@@ -17,7 +18,8 @@
 //	                                                          Close, then buffer.New(fresh mem, same backing))
 //	dump                                    -> buf N K=V ... | back N K=V ...   (buffer only, else na)
 //
-// Anything malformed answers bad-op; a well-formed op before `open` answers noopen.
+// Anything malformed answers bad-op; a well-formed op before `open` answers noopen.  An op that does
+// not return within hangAfter answers hang (and so does every later op of the case).
 package c10
 
 import (
@@ -27,12 +29,15 @@ import (
 	"strconv"
 	"strings"
 	"sync"
+	"time"
+
+	"go4.org/jsonconfig"
 
 	"perkeep.org/pkg/sorted"
 	"perkeep.org/pkg/sorted/buffer"
-	"perkeep.org/pkg/sorted/kvfile"
-	"perkeep.org/pkg/sorted/leveldb"
-	"perkeep.org/pkg/sorted/sqlite"
+	_ "perkeep.org/pkg/sorted/kvfile"
+	_ "perkeep.org/pkg/sorted/leveldb"
+	_ "perkeep.org/pkg/sorted/sqlite"
 
 	"verifharness/hk"
 )
@@ -45,6 +50,7 @@ type mut struct {
 type cmd struct {
 	name string // open get set del batch find flush reopen dump
 	impl string
+	back string // buffer only: mem (default) or an engine
 	max  int64
 	a, b []byte
 	muts []mut
@@ -67,12 +73,20 @@ func parse(w []string) (c cmd, ok bool) {
 			}
 			return c, false
 		}
-		if len(w) == 3 && w[1] == "buffer" {
+		if (len(w) == 3 || len(w) == 4) && w[1] == "buffer" {
 			n, ok := parseInt(w[2])
 			if !ok {
 				return c, false
 			}
-			c.impl, c.max = "buffer", n
+			c.impl, c.max, c.back = "buffer", n, "mem"
+			if len(w) == 4 {
+				switch w[3] {
+				case "mem", "leveldb", "kvfile", "sqlite":
+					c.back = w[3]
+				default:
+					return c, false
+				}
+			}
 			return c, true
 		}
 		return c, false
@@ -157,6 +171,8 @@ func parseNat(d string, maxDigits int) (int, bool) {
 
 type interp struct {
 	impl   string
+	back   string // buffer only
+	hung   bool
 	kv     sorted.KeyValue
 	bufKV  sorted.KeyValue // buffer only
 	backKV sorted.KeyValue // buffer only
@@ -199,21 +215,41 @@ func NewExec() func(w []string) string {
 	liveMu.Lock()
 	live = in
 	liveMu.Unlock()
-	return func(w []string) string {
-		return hk.Guard(func() string { return in.exec(w) })
+	return in.guarded
+}
+
+const hangAfter = 20 * time.Second
+
+// guarded runs one op; a panic answers "panic", an op that does not return answers "hang".
+func (in *interp) guarded(w []string) string {
+	if in.hung {
+		return "hang"
+	}
+	ch := make(chan string, 1)
+	go func() { ch <- hk.Guard(func() string { return in.exec(w) }) }()
+	t := time.NewTimer(hangAfter)
+	defer t.Stop()
+	select {
+	case out := <-ch:
+		return out
+	case <-t.C:
+		in.hung = true
+		in.kv = nil // do not touch the stuck store again (its files are still removed)
+		return "hang"
 	}
 }
 
+// openEngine goes through sorted.NewKeyValue, the constructor the server configuration uses.
 func openEngine(impl, path string) (sorted.KeyValue, error) {
-	switch impl {
-	case "leveldb":
-		return leveldb.NewStorage(path)
-	case "kvfile":
-		return kvfile.NewStorage(path)
-	case "sqlite":
-		return sqlite.NewStorage(path)
+	typ := map[string]string{"mem": "memory", "leveldb": "leveldb", "kvfile": "kv", "sqlite": "sqlite"}[impl]
+	if typ == "" {
+		return nil, fmt.Errorf("no engine %q", impl)
 	}
-	return nil, fmt.Errorf("no engine %q", impl)
+	cfg := jsonconfig.Obj{"type": typ}
+	if impl != "mem" {
+		cfg["file"] = path
+	}
+	return sorted.NewKeyValue(cfg)
 }
 
 func errStr(err error) string {
@@ -266,9 +302,26 @@ func (in *interp) exec(w []string) string {
 		}
 		switch c.impl {
 		case "mem":
-			in.kv = sorted.NewMemoryKeyValue()
+			kv, err := openEngine("mem", "")
+			if err != nil {
+				return "err"
+			}
+			in.kv = kv
 		case "buffer":
-			in.bufKV, in.backKV, in.max = sorted.NewMemoryKeyValue(), sorted.NewMemoryKeyValue(), c.max
+			in.back, in.max = c.back, c.max
+			if c.back != "mem" {
+				dir, err := os.MkdirTemp("", "pkh-c10-")
+				if err != nil {
+					return "err"
+				}
+				in.dir = dir
+				in.path = filepath.Join(dir, "back."+c.back)
+			}
+			back, err := openEngine(c.back, in.path)
+			if err != nil {
+				return "err"
+			}
+			in.bufKV, in.backKV = sorted.NewMemoryKeyValue(), back
 			in.kv = buffer.New(in.bufKV, in.backKV, c.max)
 		default:
 			dir, err := os.MkdirTemp("", "pkh-c10-")
@@ -333,8 +386,21 @@ func (in *interp) exec(w []string) string {
 		case "mem":
 			return "na"
 		case "buffer":
-			if err := in.kv.Close(); err != nil {
+			// Close flushes and closes the backing store; a memory backing store survives its
+			// (no-op) Close, an engine is opened again from its file
+			err := in.kv.Close()
+			if in.back != "mem" {
+				in.kv = nil
+			}
+			if err != nil {
 				return "err"
+			}
+			if in.back != "mem" {
+				back, err := openEngine(in.back, in.path)
+				if err != nil {
+					return "err"
+				}
+				in.backKV = back
 			}
 			in.bufKV = sorted.NewMemoryKeyValue()
 			in.kv = buffer.New(in.bufKV, in.backKV, in.max)
